@@ -65,14 +65,25 @@ def relayout(src, rnd, stats=None):
             res.append(rnd.choice(['', '', '\x0c']))      # blank line or a page break (form feed): both are layout only
             if res[-1]:
                 stats['formfeed'] = stats.get('formfeed', 0) + 1
+        # comments are layout: plain ones, ones that mention identifiers of the program (a text search for a name must not stop in
+        # them) and ones that look like type comments in places where the type-comment grammar has none
         if rnd.random() < 0.1:
-            res.append(indent(lvl) + '# c')
-        res.append(indent(lvl) + text + (rnd.choice(['', '  # t']) if rnd.random() < 0.1 else ''))
+            res.append(indent(lvl) + rnd.choice(['# c', '# c', '# type: int', '# ' + _some_name(ts, rnd) + ' is set here', '# type: ' + _some_name(ts, rnd)]))
+            stats['comment-line'] = stats.get('comment-line', 0) + 1
+        trail = ''
+        if rnd.random() < 0.12:
+            trail = rnd.choice(['', '  # t', '  # type: int', '  # type: (int) -> str', '  # ' + _some_name(ts, rnd), '  # noqa: ' + _some_name(ts, rnd) + ' unused'])
+        res.append(indent(lvl) + text + trail)
         k += 1
     if rnd.random() < 0.08:
         stats['crlf'] = 1
         return '\r\n'.join(res) + '\r\n'
     return '\n'.join(res) + '\n'
+
+
+def _some_name(ts, rnd):
+    names = [t.string for t in ts if t.type == tokenize.NAME and len(t.string) > 1]
+    return rnd.choice(names) if names else 'x'
 
 
 def emit(ts, rnd, base_indent, stats):
@@ -91,6 +102,9 @@ def emit(ts, rnd, base_indent, stats):
             if (depth > 0 and fdepth == 0 and rnd.random() < 0.15 and t.type != FM and prev.type not in (FS, FM)):
                 # inside brackets the continuation may start anywhere, also left of the statement's own indentation
                 sep = '\n' + ' ' * (rnd.randint(0, base_indent + 12) if rnd.random() < 0.3 else base_indent + rnd.randint(0, 12))
+                if rnd.random() < 0.15 and s not in ('.',) and prev.string not in ('.',):
+                    # a comment inside the brackets, before the break: it may name identifiers or look like a type comment
+                    sep = rnd.choice(['  # ' + _some_name(ts, rnd) + ' here', '  # type: float', ' # ' + _some_name(ts, rnd)]) + sep
                 stats['broken'] = stats.get('broken', 0) + 1
             elif not adjacent and fdepth == 0 and rnd.random() < 0.1:
                 sep = '  '
